@@ -403,6 +403,10 @@ def main():
                 else:
                     extra = [a for a in ax if a not in ALLOWED_AXIOMS and "bv_decide" not in a]
                     obligations.append((t, not extra, "axioms: %s" % (ax or "none")))
+        if lean_ok and thms and tier == "thorough":
+            # independent re-check of the compiled property module by the toolchain's replaying checker
+            rc3, out3, err3 = sh(["lake", "env", "leanchecker", "SfVerif.Props." + prop], cwd=LEAN, timeout=3000)
+            obligations.append(("leanchecker SfVerif.Props.%s (independent replay of the compiled module)" % prop, rc3 == 0, (out3 + err3).strip()[-300:]))
         if not lean_ok and not any(not ok for _, ok, _ in obligations):
             obligations.append(("lake build", False, build_log[-600:]))
         bad_src = audit_sources()
